@@ -52,6 +52,10 @@ def instances(tier, seed):
     out.append(dict(op="transition", kinds=("e", "e"), bonds=(1, 2, 1), kind="cplx", label="transition ee cplx", key="transition"))
     out.append(dict(op="rdm1", kinds=("e", "e"), bonds=(1, 2, 1), kind="cplx", label="rdm1 ee cplx", key="rdm1"))
     out.append(dict(op="rdm2", kinds=("s", "s", "s"), bonds=(1, 2, 2, 1), kind="cplx", label="rdm2 sss cplx", key="rdm2"))
+    # long thin chain (11 electron sites, bond dimension 1 except one bond of 2): site indices with two digits, sweeps over more than ten bonds
+    for op in ("rdm1", "rdm2", "occupations"):
+        out.append(dict(op=op, kinds=tuple(["e"] * 11), bonds=((1,) * 12 if op == "rdm2" else (1, 1, 1, 1, 1, 1, 1, 1, 1, 1, 2, 1)), kind="real", long=True, mem_gb=(7.0 if op == "rdm2" else 3.5),
+                        label="%s long chain (11 electron sites)" % op, key=op + "/long"))
     # density operators (purifications): physical and ancilla legs of a generic MpDm are not interchangeable
     for kinds, bonds in [(("s", "s"), (1, 2, 1)), (("s", "w", "s"), (1, 2, 2, 1))]:
         for op in ("mpdm_rdm1", "mpdm_rdm2"):
@@ -161,6 +165,10 @@ def make_harness(P):
             ctx.check("one-site reduced density matrices = partial traces of the dense outer product (index order: bra index first)", ctx.all(conds))
             only = a.calc_1site_rdm(idx=1)
             ctx.check("idx argument selects the requested site", list(only.keys()) == [1] and ctx.eq(only[1], _partial_trace(psi, [1])))
+            if P.get("long"):
+                only = a.calc_1site_rdm(idx=n - 1)
+                ctx.check("idx argument selects the requested site", list(only.keys()) == [n - 1] and ctx.eq(only[n - 1], _partial_trace(psi, [n - 1])))
+                return
             if kind == "real":
                 # history on the same object: query, modify in place, query again - nothing remembered from the first query may survive
                 a.scale(ctx.real("kscale", 0.5), inplace=True)
@@ -174,6 +182,8 @@ def make_harness(P):
             conds = [ctx.eq(rd[(i, j)], _partial_trace(psi, [i, j])) for i in range(n) for j in range(i + 1, n)]
             ctx.check("two-site reduced density matrices = partial traces (all pairs incl. non-adjacent)", ctx.all(conds))
             ctx.check("all pairs present", sorted(rd.keys()) == [(i, j) for i in range(n) for j in range(i + 1, n)])
+            if P.get("long"):
+                return
             if kind == "real":
                 a.scale(ctx.real("kscale", 0.5), inplace=True)
                 psi2 = lib.dense_vec(lib.tensors(a)).reshape(dims)
@@ -182,6 +192,11 @@ def make_harness(P):
                           ctx.all([ctx.eq(rd2[(i, j)], _partial_trace(psi2, [i, j])) for i in range(n) for j in range(i + 1, n)]))
         elif op == "occupations":
             occ = a.e_occupations
+            if P.get("long"):
+                psi = va.reshape(dims)
+                refs = [_partial_trace(psi, [model.dof_to_siteidx[dof]])[1, 1] for dof in model.e_dofs]
+                ctx.check("electronic occupations = <a^dagger a> from the dense vector", ctx.eq(np.asarray(occ), np.array(refs, dtype=object if ctx.symbolic else float)))
+                return
             refs = []
             for dof in model.e_dofs:
                 si = model.dof_to_siteidx[dof]
